@@ -43,10 +43,14 @@ def tab_lines(grid, inp):
 MODEL = """
 [Pair]
 Al-Al : >=0 as.polynomial 3 1
+Al-Cu : >=0 as.polynomial 2 2
+Cu-Cu : >=0 as.polynomial 1 3
 [EAM-Embed]
 Al : >=0 as.polynomial 1 2
+Cu : >=0 as.polynomial 2 2
 [EAM-Density]
 Al : >=0 as.polynomial 2 1
+Cu : >=0 as.polynomial 3 1
 """
 
 
@@ -77,19 +81,45 @@ def observe_table(lines, grid, target):
     except Exception as e:
         return ("internal", "%s: %s" % (type(e).__name__, str(e)[:120])), text
     data = out.getvalue()
+    # every block / column of the table is on the grid: the block that deviates most from the parsed grid is reported
+    grids = []      # (rows, last abscissa, step)
     if target == "LAMMPS":
-        b = formats.parse_lammps_table(data)[0]
-        rows = [float(r[1]) for r in b["rows"]]
-        # rows 1..N at dr..cutoff : nr = N + 1
-        return ("accept", len(rows) + 1, rows[-1], rows[0], (tab.nr, tab.cutoff)), text
-    if target == "excel_eam":
+        for b in formats.parse_lammps_table(data):
+            rows = [float(r[1]) for r in b["rows"]]
+            grids.append((len(rows) + 1, rows[-1], rows[0]))          # rows 1..N at dr..cutoff : nr = N + 1
+    elif target == "GULP":
+        for b in formats.parse_gulp(data):
+            rs = [float(r[1]) for r in b["rows"]]
+            grids.append((len(rs), rs[-1] if rs else float("nan"), rs[1] - rs[0] if len(rs) > 1 else float("nan")))
+    elif target == "DL_POLY":
+        t = formats.parse_dlpoly_table(data)
+        for b in t["blocks"]:
+            grids.append((len(b["E"]), float(t["delpot"]) * (t["ngrid"] - 4), float(t["delpot"])))
+            grids.append((len(b["F"]), float(t["cutpot"]), float(t["delpot"])))
+    elif target == "DL_POLY_EAM":
+        t = formats.parse_tabeam(data)
+        for b in t["blocks"]:
+            if (b["kw"] == "embe") == (grid == "rho"):
+                grids.append((len(b["vals"]), float(b["end"]), float(b["end"]) / (b["n"] - 1) if b["n"] > 1 else float("nan")))
+    elif target == "excel_eam":
         wb = formats.parse_xlsx(data)
-        col = wb["EAM-Density"]["cols"]["r"] if grid == "r" else wb["EAM-Embed"]["cols"]["rho"]
-        return ("accept", len(col), float(col[-1]), float(col[1]) - float(col[0]), (tab.nr, tab.cutoff)), text
-    f = formats.parse_setfl(data, "alloy")
-    if grid == "r":
-        return ("accept", f["nr"], float(f["dr"]) * (f["nr"] - 1), float(f["dr"]), (tab.nr, tab.cutoff)), text
-    return ("accept", f["nrho"], float(f["drho"]) * (f["nrho"] - 1), float(f["drho"]), (tab.nrho, tab.cutoff_rho)), text
+        for sheet, first in ((("EAM-Density", "r"), ("Pair", "r")) if grid == "r" else (("EAM-Embed", "rho"),)):
+            col = wb[sheet]["cols"][first]
+            grids.append((len(col), float(col[-1]), float(col[1]) - float(col[0])))
+            for name, vals in wb[sheet]["cols"].items():
+                if len(vals) != len(col):
+                    grids.append((len(vals), float("nan"), float("nan")))
+    else:
+        f = formats.parse_setfl(data, "alloy")
+        if grid == "r":
+            grids.append((f["nr"], float(f["dr"]) * (f["nr"] - 1), float(f["dr"])))
+            grids += [(len(dv), float(f["dr"]) * (len(dv) - 1), float(f["dr"])) for e in f["els"] for dv in e["dens"]] + [(len(a), float(f["dr"]) * (len(a) - 1), float(f["dr"])) for a in f["pairs"]]
+        else:
+            grids.append((f["nrho"], float(f["drho"]) * (f["nrho"] - 1), float(f["drho"])))
+            grids += [(len(e["embed"]), float(f["drho"]) * (len(e["embed"]) - 1), float(f["drho"])) for e in f["els"]]
+    parsed = (tab.nr, tab.cutoff) if grid == "r" else (tab.nrho, tab.cutoff_rho)
+    worst = max(grids, key=lambda g: (g[0] != parsed[0], abs(g[0] - parsed[0]), 0 if g[1] == g[1] else 1)) if grids else (0, float("nan"), float("nan"))
+    return ("accept", worst[0], worst[1], worst[2], parsed), text
 
 
 def close(a, b):
@@ -133,8 +163,10 @@ def _table_one(idx):
                     bad.append(("wrong-grid", grid, "%s gives nr=%s cutoff=%s, statement says nr=%s cutoff=%s" % (lines, obs[1], obs[2], want[0], want[1]), text))
         # the table actually written
         if want is not None and want[0] >= 3 and not bad:
-            for target in (["LAMMPS", "setfl", "excel_eam"] if grid == "r" else ["setfl", "excel_eam"]):
+            for target in (["LAMMPS", "GULP", "DL_POLY", "setfl", "DL_POLY_EAM", "excel_eam"] if grid == "r" else ["setfl", "DL_POLY_EAM", "excel_eam"]):
                 if target == "excel_eam" and (want[0] > 50 or idx % 3):
+                    continue
+                if target == "DL_POLY" and (want[0] % 4 or want[0] <= 4):
                     continue
                 obs2, text2 = observe_table(lines, grid, target)
                 n += 1
